@@ -397,7 +397,7 @@ def run_case(doc):
                 if s in assigned:
                     continue
                 C["derivative_components_compared"] += 1
-                if abs(got[idx[s]] - dx[s]) > 1e-10 * max(scale[s], abs(dx[s]), 1e-300) + 1e-14:
+                if math.isfinite(dx[s]) and not (abs(got[idx[s]] - dx[s]) <= 1e-10 * max(scale[s], abs(dx[s]), 1e-300) + 1e-14):
                     mech = "rate-rule" if any(r["kind"] == "rate" for r in doc["rules"]) else ("local-parameter" if coll else "kinetic-law")
                     if any(r["kind"] == "rate" and r["var"] in doc["params"] for r in doc["rules"]):
                         mech = "rate-rule-on-parameter"
@@ -407,7 +407,7 @@ def run_case(doc):
                     break
             for pn, v in dp.items():
                 C["derivative_components_compared"] += 1
-                if pn not in idx or abs(got[idx[pn]] - v) > 1e-10 * max(abs(v), 1e-300) + 1e-14:
+                if pn not in idx or (math.isfinite(v) and not (abs(got[idx[pn]] - v) <= 1e-10 * max(abs(v), 1e-300) + 1e-14)):
                     viol.append({"key": "C13/derivative:rate-rule-on-parameter", "msg": "rate rule on parameter %s: document rate %r, imported %r" % (
                         pn, v, got[idx[pn]] if pn in idx else None)})
         nontrivial = coll or (n_as and n_rr) or any(n > 1 for r in doc["reactions"] for s, n in r["reactants"] + r["products"])
